@@ -1408,14 +1408,19 @@ def oracle_C18(objs, st=None):
     from qsc import Qsc
     SPECTRAL = ('iota', 'axis_length', 'min_R0', 'max_elongation', 'mean_elongation', 'min_L_grad_B', 'B20_mean', 'B20_residual', 'd2_volume_d_psi2', 'DMerc_times_r2')
     ladder = (31, 61, 101, 131, 161)
-    for nm, extra in (('r2 section 5.1', dict(rs=[0, 1e-4], sigma0=0.05)), ('precise QA', dict(sG=-1, spsi=-1, B0=0.8, sigma0=0.2)), ('r2 section 5.4', dict(zc=[0, 3e-4]))):
+    for nm, extra in (('r2 section 5.1', dict(rs=[0, 1e-4], sigma0=0.05)), ('precise QA', dict(sG=-1, spsi=-1, B0=0.8, sigma0=0.2)), ('r2 section 5.4', dict(zc=[0, 3e-4])),
+                      ('r1 section 5.1', dict(rs=[0, 1e-4])),
+                      # extremum of R0 slightly off a grid point, data almost symmetric about it
+                      (None, dict(rc=[1, -0.03], zs=[0, 0.03], rs=[0, 1e-4], nfp=3, etabar=0.8, B0=1.2, order='r1'))):
         vals = []
         for n in ladder:
-            qq = Qsc.from_paper(nm, nphi=n, order='r3', **extra)
-            vals.append({k: float(getattr(qq, k)) for k in SPECTRAL})
-        cid = dict(kind='named', name=nm, kwargs=dict(name=nm, order='r3', **extra), ladder=list(ladder))
-        st.distinct.add('ladder' + nm)
+            qq = Qsc(nphi=n, **extra) if nm is None else Qsc.from_paper(nm, nphi=n, order=('r3' if not nm.startswith('r1') else 'r1'), **extra)
+            vals.append({k: float(getattr(qq, k)) for k in SPECTRAL if hasattr(qq, k)})
+        cid = dict(kind='named' if nm else 'explicit', name=nm, kwargs=dict(extra, **({'name': nm} if nm else {})), ladder=list(ladder))
+        st.distinct.add('ladder' + str(nm))
         for k in SPECTRAL:
+            if k not in vals[0]:
+                continue
             v = [x[k] for x in vals]
             sc = max(abs(v[-1]), 1e-300)
             resolved_at = None
